@@ -1041,3 +1041,181 @@ Proof.
     rewrite header_line_cat_name by assumption. unfold corrected_name. cbn [andb rmap].
     rewrite IH. reflexivity.
 Qed.
+
+(* ================================================================================================ *)
+(* D.4 well-formed instances; the header of a written file                                          *)
+(* ================================================================================================ *)
+Record wf_cat (i : cinst) : Prop := mk_wf_cat {
+  wf_some_ballot : c_prefs i <> [];                                       (* at least one ballot *)
+  wf_ncat : (1 <= c_num_categories i)%N;                                  (* 1 or more categories *)
+  wf_len : Forall (fun b => N.of_nat (List.length b) = c_num_categories i) (c_prefs i);
+  wf_mult_pos : Forall (fun p => (1 <= snd p)%N) (c_mult i);              (* multiplicities >= 1 *)
+  wf_keys : map fst (c_mult i) = c_prefs i;                               (* table keys = ballot list *)
+  wf_nodup : NoDup (c_prefs i);
+  wf_meta : wf_fields (c_meta i);                                         (* single-line, no outer whitespace *)
+  wf_dtype : data_type (c_meta i) = lit "cat";
+  wf_resv : reserved (c_meta i) = [];                                     (* no parser state *)
+  wf_alts : wf_names (alt_names (c_meta i));                              (* names as above, may be EMPTY; ids distinct *)
+  wf_cats : wf_names (c_cat_names i)
+}.
+
+Lemma wf_ballots_nonempty i : wf_cat i -> Forall (fun b => b <> []) (c_prefs i).
+Proof.
+  intros W. eapply Forall_impl; [|apply (wf_len i W)]. intros b Hb ->. simpl in Hb.
+  pose proof (wf_ncat i W). lia.
+Qed.
+
+Lemma hash_line_nl l : hash_line l -> hash_line (l ++ nl).
+Proof. intros [r ->]. now exists (r ++ nl). Qed.
+
+Lemma name_lines_hash prefix d : hash_line prefix ->
+  Forall hash_line (map (fun p => name_line prefix (fst p) (snd p)) d).
+Proof.
+  intros [r ->]. apply Forall_forall. intros l Hl. apply in_map_iff in Hl as [[a nm] [<- _]].
+  unfold name_line, name_key. eexists. reflexivity.
+Qed.
+
+Lemma header_lines_hash i : Forall hash_line (header_lines i).
+Proof.
+  unfold header_lines. rewrite !Forall_app. repeat split.
+  - unfold meta_lines. repeat constructor; eexists; reflexivity.
+  - unfold count_lines. repeat constructor; eexists; reflexivity.
+  - apply name_lines_hash. eexists; reflexivity.
+  - apply name_lines_hash. eexists; reflexivity.
+Qed.
+
+Definition start_inst : cinst := cinst0 (meta0 (lit "cat")).
+
+Lemma fold_header_all i : wf_cat i ->
+  fold_header false [] (Ok start_inst) (header_lines i) = Ok (set_c_ballots i [] []).
+Proof.
+  intros W. unfold header_lines. rewrite !fold_header_app.
+  (* the nine metadata lines *)
+  rewrite (fold_header_meta_lines false [] start_inst (meta_lines (c_meta i)))
+    by (apply meta_lines_not_cat, (wf_meta i W)).
+  rewrite metadata_roundtrip by apply (wf_meta i W). cbn [rmap].
+  (* the four count lines *)
+  rewrite fold_header_counts.
+  (* category names *)
+  destruct (wf_cats i W) as [CF CN].
+  rewrite fold_header_cat_names by exact CF.
+  (* alternative names *)
+  destruct (wf_alts i W) as [AF AN].
+  rewrite fold_header_meta_lines by (now apply alt_name_lines_not_cat).
+  rewrite alt_names_roundtrip_fresh; [|split; assumption|reflexivity].
+  cbn [rmap]. f_equal.
+  (* the rebuilt record *)
+  cbn [c_cat_names c_meta c_num_unique c_num_categories c_prefs c_mult set_c_meta set_c_cat_names
+       set_c_num_categories set_c_num_unique set_c_ballots start_inst cinst0].
+  rewrite (set_all_fresh (c_cat_names i) []) by exact CN. cbn [app].
+  pose proof (wf_resv i W) as R.
+  destruct i as [m nu nc cn pr mu]. destruct m. cbn in R. subst. reflexivity.
+Qed.
+
+(* ================================================================================================ *)
+(* D.5 the ballot loop and the whole file                                                           *)
+(* ================================================================================================ *)
+Lemma assoc_set_ballot_fresh b k (M : list (ballot * N)) :
+  ~ In b (map fst M) -> assoc_set ballot_eqb b k M = M ++ [(b, k)].
+Proof.
+  induction M as [|[b' k'] r IH]; intros H; [reflexivity|]. cbn [assoc_set].
+  destruct (ballot_eqb b b') eqn:E.
+  - apply ballot_eqb_eq in E. subst. exfalso. apply H. now left.
+  - cbn [app]. rewrite IH; [reflexivity|]. intros Hin. apply H. now right.
+Qed.
+
+Lemma set_c_ballots_self st : set_c_ballots st (c_prefs st) (c_mult st) = st.
+Proof. now destruct st. Qed.
+
+Lemma ballot_loop_lines mu S : forall st,
+  Forall (fun b => b <> []) S -> NoDup S -> (forall b, In b S -> ~ In b (map fst (c_mult st))) ->
+  ballot_loop false st (map (fun b => ballot_text mu b ++ nl) S)
+  = Ok (set_c_ballots st (c_prefs st ++ S) (c_mult st ++ retable mu S)).
+Proof.
+  induction S as [|b S IH]; intros st NE ND FR.
+  - cbn [map ballot_loop retable]. rewrite !app_nil_r. now rewrite set_c_ballots_self.
+  - inversion NE as [|? ? Hb NE']; subst. inversion ND as [|? ? Hnin ND']; subst.
+    cbn [map ballot_loop]. rewrite <- ballot_line_text.
+    destruct b as [|c b']; [now elim Hb|]. rewrite ballot_line_read. cbn [rbind].
+    unfold add_ballot. rewrite assoc_set_ballot_fresh by (apply FR; now left).
+    rewrite IH; [|exact NE'|exact ND'|].
+    + f_equal. destruct st as [m nu nc cn pr M]. cbn [set_c_ballots c_prefs c_mult c_meta c_num_unique
+        c_num_categories c_cat_names retable map]. now rewrite <- !app_assoc.
+    + intros b2 Hb2. cbn [set_c_ballots c_mult]. rewrite map_app, in_app_iff. intros [Hin|Hin].
+      * apply (FR b2); [now right|exact Hin].
+      * cbn in Hin. destruct Hin as [<-|[]]. contradiction.
+Qed.
+
+Lemma strip_ballot_line mu c b :
+  strip (ballot_line mu (c :: b)) = show_N (mult_of mu (c :: b)) ++ lit ": " ++ body c b.
+Proof.
+  unfold ballot_line. rewrite strip_pref_str.
+  set (m := mult_of mu (c :: b)).
+  replace (show_N m ++ lit ": " ++ body c b ++ nl) with ((show_N m ++ lit ": " ++ body c b) ++ nl)
+    by (now rewrite <- !app_assoc).
+  rewrite strip_nl_r by reflexivity.
+  apply strip_fix_good.
+  - apply starts_good_app. destruct (show_N_starts m) as [z [t1 [E H]]]. exists z, t1. split; [exact E|].
+    apply orb_true_iff in H as [H|H]; [now rewrite H|].
+    exfalso. apply N.eqb_eq in H. subst z. pose proof (show_N_digits m) as D. rewrite E in D. discriminate.
+  - apply ends_good_app, ends_good_app, body_ends.
+Qed.
+
+Lemma ballot_line_not_hash mu c b : startswith hash_prefix (strip (ballot_line mu (c :: b))) = false.
+Proof.
+  rewrite strip_ballot_line. pose proof (show_N_nonempty (mult_of mu (c :: b))) as NE.
+  pose proof (show_N_digits (mult_of mu (c :: b))) as D.
+  destruct (show_N (mult_of mu (c :: b))) as [|z t]; [now elim NE|]. simpl in D.
+  apply andb_true_iff in D as [Dz _].
+  change (startswith hash_prefix ((z :: t) ++ lit ": " ++ body c b)) with (N.eqb 35 z && true).
+  destruct (N.eqb_spec 35 z) as [<-|]; [discriminate|reflexivity].
+Qed.
+
+Lemma all_lines_no_nlcr i : wf_cat i ->
+  forallb no_nlcr (header_lines i ++ map (ballot_text (c_mult i)) (sorted_prefs i)) = true.
+Proof.
+  intros W. apply forallb_no_nlcr. unfold header_lines. rewrite !forallb_app.
+  rewrite meta_lines_no_break by apply (wf_meta i W). rewrite count_lines_no_break.
+  destruct (wf_cats i W) as [CF _]. destruct (wf_alts i W) as [AF _].
+  unfold cat_name_lines. rewrite name_lines_no_break by (reflexivity || exact CF).
+  rewrite alt_name_lines_no_break by exact AF. cbn [andb].
+  apply forallb_forall. intros l Hl. apply in_map_iff in Hl as [b [<- Hb]].
+  assert (NE : b <> []).
+  { pose proof (wf_ballots_nonempty i W) as F. rewrite Forall_forall in F. apply F.
+    eapply Permutation_in; [apply Permutation_sym, sorted_prefs_perm|exact Hb]. }
+  destruct b as [|c b']; [now elim NE|]. apply ballot_text_no_break.
+Qed.
+
+(* C08_roundtrip: parse_file (readlines) of the written file gives back the instance, ballots in file order *)
+Theorem roundtrip_readlines i : wf_cat i ->
+  cat_parse false false (meta0 (lit "cat")) (readlines (cat_write i)) = Ok (sorted_view i).
+Proof.
+  intros W. rewrite cat_write_lines. rewrite readlines_unlines by (now apply all_lines_no_nlcr).
+  rewrite map_app, map_map.
+  set (mu := c_mult i). remember (sorted_prefs i) as S eqn:ES.
+  unfold cat_parse. change (teqb (data_type (meta0 (lit "cat"))) (lit "cat")) with true. cbv iota.
+  unfold cat_parse_body. fold start_inst.
+  (* facts about the sorted ballot list *)
+  assert (PS : Permutation (c_prefs i) S) by (rewrite ES; apply sorted_prefs_perm).
+  assert (NES : Forall (fun b => b <> []) S).
+  { eapply Permutation_Forall; [exact PS|now apply wf_ballots_nonempty]. }
+  assert (NDS : NoDup S) by (eapply Permutation_NoDup; [exact PS|apply (wf_nodup i W)]).
+  destruct S as [|s S'].
+  { exfalso. apply (wf_some_ballot i W). now apply Permutation_nil, Permutation_sym. }
+  (* header *)
+  rewrite (header_loop_app false [] _ start_inst (set_c_ballots i [] [])).
+  2:{ discriminate. }
+  2:{ apply Forall_forall. intros l Hl. apply in_map_iff in Hl as [l0 [<- Hl0]]. apply hash_line_nl.
+      pose proof (header_lines_hash i) as F. rewrite Forall_forall in F. now apply F. }
+  2:{ rewrite fold_header_nl. now apply fold_header_all. }
+  (* first ballot line stops the header loop *)
+  inversion NES as [|? ? Hs _]; subst. destruct s as [|c s']; [now elim Hs|].
+  cbn [map]. rewrite header_loop_stop by (rewrite <- ballot_line_text; apply ballot_line_not_hash).
+  cbn [rbind].
+  (* ballots *)
+  change ((ballot_text mu (c :: s') ++ nl) :: map (fun b => ballot_text mu b ++ nl) S')
+    with (map (fun b => ballot_text mu b ++ nl) ((c :: s') :: S')).
+  rewrite ballot_loop_lines; [|exact NES|exact NDS|intros b _ []].
+  cbn [rmap]. f_equal. unfold sorted_view. fold mu. fold (retable mu (sorted_prefs i)). rewrite <- ES.
+  now destruct i.
+Qed.
